@@ -51,3 +51,37 @@ Theorem C02_common_type_is_c11 : forall (h : PyHeap.heap) (a b : PyHeap.loc), (a
   /\ PyHeap.same_old h h' /\ (List.length h <= List.length h')%nat.
 Proof. exact c11_cast_spec. Qed.
 Print Assumptions C02_common_type_is_c11.
+
+(* ------------------------------------------------------------------ the general theorem *)
+From RZ.proofs Require Import ExprCorrect.
+
+(* REPAIRED model: for every side-effect-free integer expression over declared locals and literals
+   built from casts, ~ - !, + - * & | ^ << >>, the six comparisons, && || and ?: (non-literal
+   condition), of ANY depth, and ALL values of the locals: the lowering is accepted, the IL term
+   always evaluates (to a value of the sort its type says), and whenever C11 defines a value the IL
+   value is that value and the model's result type is the C type. *)
+Theorem C02_operators_correct_repaired :
+  forall (cfg : config) (rw : regwidth) (E : cenv) (csub : csubs) xi V e st,
+  cfg_fx cfg = all_fixes -> cfg_params cfg = [] -> st_vars st = V -> pfrag V e ->
+  exists pv st', lower_expr cfg e st = OK (IPure pv, st') /\ st_same st st' /\
+    forall cs ms, rel V cs ms ->
+      exists ilv, eval rw ms [] (pv_term pv) = Some ilv /\ shape_pv pv ilv /\
+        forall fuel cs' cv, ceval E csub xi fuel cs e = Some (cs', cv) -> cs' = cs /\ agrees pv cv ilv.
+Proof. exact expr_correct_unconditional. Qed.
+Print Assumptions C02_operators_correct_repaired.
+
+(* FAITHFUL model (the one tied to the code by K2), under the decidable guard "the translation of e
+   does not depend on the repair switches" *)
+Theorem C02_operators_correct_partial :
+  forall (cfg : config) (rw : regwidth) (E : cenv) (csub : csubs) xi V e st,
+  cfg_params cfg = [] -> st_vars st = V -> pfrag V e ->
+  lower_expr cfg e st = lower_expr (with_fx all_fixes cfg) e st ->
+  exists pv st', lower_expr cfg e st = OK (IPure pv, st') /\ st_same st st' /\
+    forall cs ms, rel V cs ms ->
+      exists ilv, eval rw ms [] (pv_term pv) = Some ilv /\ shape_pv pv ilv /\
+        forall fuel cs' cv, ceval E csub xi fuel cs e = Some (cs', cv) -> cs' = cs /\ agrees pv cv ilv.
+Proof.
+  intros cfg rw E csub xi V e st Hp HV Hf Heq. rewrite Heq.
+  apply (expr_correct_unconditional (with_fx all_fixes cfg) rw E csub xi V e st); auto.
+Qed.
+Print Assumptions C02_operators_correct_partial.
